@@ -80,27 +80,18 @@ def check_narrow(ctx, prog, f):
         if not casts:
             ctx.undecided('R-NARROW', f['pq'], role, fwhere(f, r['l']), '64-bit length is never narrowed')
             continue
+        import bounded
+        grid = [-(1 << 63), -(1 << 32), -(1 << 31) - 1, -(1 << 31), -1, 0, 1, 125, 65536, (1 << 31) - 16, (1 << 31) - 1, 1 << 31, (1 << 31) + 5, (1 << 32) - 1, 1 << 32, (1 << 32) + 7, (1 << 62), (1 << 63) - 1]
         for c in casts:
-            lo = hi = None
-            for cond, pol, kind in g.of(c):
-                if kind != 'after' or pol is not False:
-                    continue
-                for part in disj(cond):
-                    part = strip(part)
-                    if part.get('k') == 'bin' and strip(part['x']).get('id') == holder['id'] and const_val(part['y']) is not None:
-                        cst = const_val(part['y'])
-                        if part['op'] == '<':
-                            lo = cst
-                        elif part['op'] == '<=':
-                            lo = cst + 1
-                        elif part['op'] == '>':
-                            hi = cst
-                        elif part['op'] == '>=':
-                            hi = cst - 1
-            ctx.evaluations += 1
-            ok = lo is not None and lo >= 0 and hi is not None and hi <= 0x7fffffff
-            ctx.check(ok, 'R-NARROW', f['pq'], role, fwhere(f, c['l']), 'dominated by %s <= len <= %s' % (lo, hi),
-                      'the narrowing `(int)%s` is not dominated by a check that the value lies in [0, INT_MAX] (lower bound %s, upper bound %s): a peer-chosen length becomes negative or wraps' % (holder['n'], lo, hi))
+            st, info = bounded.decide(prog, f, g.of(c), lambda ev: 0 <= ev.env[holder['id']] <= 0x7fffffff, {holder['id']: holder['n']}, {}, grid, G=g)
+            ctx.evaluations += len(grid)
+            if st == 'undecided':
+                ctx.undecided('R-NARROW', f['pq'], role, fwhere(f, c['l']), info)
+            elif st == 'holds' and not info:
+                ctx.undecided('R-NARROW', f['pq'], role, fwhere(f, c['l']), 'no value of the grid reaches the narrowing')
+            else:
+                ctx.check(st == 'holds', 'R-NARROW', f['pq'], role, fwhere(f, c['l']), 'every 64-bit value the guards admit lies in [0, INT_MAX]',
+                          'the narrowing `(int)%s` is reached for %s, outside [0, INT_MAX]: a peer-chosen length becomes negative or wraps' % (holder['n'], ', '.join('%s = %s' % kv for kv in info.items()) if isinstance(info, dict) else ''))
 
 
 def disj(c):
@@ -367,7 +358,7 @@ def check_opcodes(ctx, prog, send, recv):
 def check_message(ctx, prog, recv):
     import bounded
     g = q.Guarded(recv)
-    stores = [e for e in fn_exprs(recv) if e.get('k') == 'bin' and e.get('op') == '=' and strip_lv(e['x']).get('n') == 'haveMsg' and const_val(e['y']) == 1]
+    stores = [e for e in fn_exprs(recv) if e.get('k') == 'bin' and e.get('op') == '=' and strip_lv(e['x']).get('n') == 'haveMsg' and const_val(e['y']) != 0]
     if not stores:
         stores = [e for e in fn_exprs(recv) if e.get('k') == 'bin' and e.get('op') == '=' and strip_lv(e['x']).get('k') == 'var' and T(recv, strip_lv(e['x']).get('t')).get('bool') and const_val(e['y']) == 1 and
                   strip_lv(e['x'])['id'] in set(w['id'] for lp in ir.walk_stmts(recv['body']) if lp.get('k') in ('while', 'do', 'for') and lp.get('c') for w in walk_expr(lp['c']) if w.get('k') == 'var')]
@@ -383,7 +374,10 @@ def check_message(ctx, prog, recv):
         for e in stores:
             for fin in (0, 1):
                 for op in range(16):
-                    r = bounded.admitted3(bounded.Bound(prog, recv, {finv['id']: fin, opv['id']: op}, {}), g.of(e), g, relevant=rel)
+                    evb = bounded.Bound(prog, recv, {finv['id']: fin, opv['id']: op}, {})
+                    r = bounded.admitted3(evb, g.of(e), g, relevant=rel)
+                    if r and const_val(e['y']) is None:
+                        r = evb.ev3(e['y'])       # `haveMsg = fin`: completes when the stored value is true
                     if r is None:
                         und = True
                     elif r:
